@@ -4232,6 +4232,17 @@ class TLSConnection(TLSRecordLayer):
                     # groups that we support
                     supported = clientHello.getExtension(ExtensionType
                                                          .supported_groups)
+                    # a psk_ke only hello is not required to include it
+                    if not supported:
+                        for result in self._sendError(
+                                AlertDescription.missing_extension,
+                                "Missing supported_groups extension"):
+                            yield result
+                    if not supported.groups:
+                        for result in self._sendError(
+                                AlertDescription.decode_error,
+                                "Empty supported_groups extension"):
+                            yield result
                     supported_ids = supported.groups
                     selected_group = next((i for i in acceptable_ids
                                            if i in supported_ids), None)
